@@ -224,6 +224,20 @@ def _closure_truth(P, cf, depth=0):
     return out
 
 
+def _some_and_atoms(P, fn, base):
+    """`opt.is_some_and(|v| cond)` == true implies cond about the payload (the false edge implies nothing: None or !cond)"""
+    out = []
+    for (edge, atom, outcome) in base:
+        if atom[0] == "call" and outcome is True and len(atom[2]) >= 2 and method(strip_generics(atom[1])) in ("is_some_and", "is_ok_and"):
+            for c in walk(atom[2][1]):
+                if c[0] == "closure" and c[1] in P.fns:
+                    for (a, o) in _closure_truth(P, P.fns[c[1]]):
+                        a2 = subst_captures(_subst_param2(a, ("payload", atom[2][0])), c[2] if len(c) > 2 and isinstance(c[2], tuple) else ())
+                        for (a3, o3) in equivalent_forms(a2, o):
+                            out.append((edge, a3, o3))
+    return out
+
+
 def guard_atoms(P, fn):
     """every (edge, atom, outcome) fact a rule may use as a guard in fn: the switch edges in every equivalent spelling,
     and, for loops over `iter.filter(|x| cond)`, the loop-entry edge with cond (captures replaced by the parent's
@@ -235,6 +249,7 @@ def guard_atoms(P, fn):
         for (tgt, atom, outcome) in switch_edges(P, fn, b):
             for (a2, o2) in equivalent_forms(atom, outcome):
                 out.append(((b, tgt), a2, o2))
+    out.extend(_some_and_atoms(P, fn, out))
     tr = None
     for nb, t in fn.calls():
         if method(cname(t)) != "next" or not t["args"]:
@@ -247,7 +262,8 @@ def guard_atoms(P, fn):
                 for c in walk(x[2][1]):
                     if c[0] == "closure" and c[1] in P.fns:
                         for (atom, o) in _closure_truth(P, P.fns[c[1]]):
-                            truths.append((subst_item(subst_captures(atom, c[2] if len(c) > 2 and isinstance(c[2], tuple) else ()), x[2][0]), o))
+                            # the closure's own item parameter first: a captured variable may itself be the parent's `param 2`
+                            truths.append((subst_captures(subst_item(atom, x[2][0]), c[2] if len(c) > 2 and isinstance(c[2], tuple) else ()), o))
         if not truths:
             continue
         for b in fn.live_blocks():
@@ -259,6 +275,14 @@ def guard_atoms(P, fn):
                         for (a2, o2) in equivalent_forms(a, o):
                             out.append(((b, tgt), a2, o2))
     return out
+
+
+def _subst_param2(e, repl):
+    if not isinstance(e, tuple):
+        return e
+    if e == ("param", 2):
+        return repl
+    return tuple(_subst_param2(x, repl) for x in e)
 
 
 def subst_item(e, base):
@@ -298,7 +322,7 @@ def filter_guard_edges(P, fn, pred):
                 for c in walk(x[2][1]):
                     if c[0] == "closure" and c[1] in P.fns:
                         for (atom, o) in _closure_truth(P, P.fns[c[1]]):
-                            atom = subst_item(subst_captures(atom, c[2] if len(c) > 2 and isinstance(c[2], tuple) else ()), x[2][0])
+                            atom = subst_captures(subst_item(atom, x[2][0]), c[2] if len(c) > 2 and isinstance(c[2], tuple) else ())
                             for (a2, o2) in equivalent_forms(atom, o):
                                 try:
                                     if pred(a2, o2, nb):
@@ -343,6 +367,14 @@ def guard_edges(P, fn, pred):
                     break
             if ok_all:
                 edges.add((b, tgt))
+            if atom[0] == "call" and outcome is True:
+                for (_e, a3, o3) in _some_and_atoms(P, fn, [((b, tgt), atom, outcome)]):
+                    try:
+                        if pred(a3, o3, b):
+                            edges.add((b, tgt))
+                            break
+                    except (IndexError, TypeError):
+                        continue
     return edges
 
 
